@@ -119,6 +119,9 @@ pub fn worker_case(line: &str) -> String {
     if let Some(rest) = line.strip_prefix("arena ") {
         return arena_case(rest);
     }
+    if let Some(rest) = line.strip_prefix("plug ") {
+        return plug_case(rest);
+    }
     if let Some(rest) = line.strip_prefix("cb ") {
         return cb_case(rest);
     }
@@ -200,6 +203,97 @@ fn arena_case(rest: &str) -> String {
             "same".into()
         }
         Err(_) => "skipped-panic".into(),
+    }
+}
+
+/// Heading adapter that writes the flattened heading text it is given into the tag.
+struct EchoHeadings;
+impl comrak::adapters::HeadingAdapter for EchoHeadings {
+    fn enter(&self, output: &mut dyn std::io::Write, heading: &comrak::adapters::HeadingMeta, _sp: Option<comrak::nodes::Sourcepos>) -> std::io::Result<()> {
+        write!(output, "<h{} data-text=\"{}\">", heading.level, heading.content.replace('&', "&amp;").replace('"', "&quot;").replace('<', "&lt;"))
+    }
+    fn exit(&self, output: &mut dyn std::io::Write, heading: &comrak::adapters::HeadingMeta) -> std::io::Result<()> {
+        write!(output, "</h{}><!--{}-->", heading.level, heading.content.len())
+    }
+}
+
+/// Highlighter that writes the same bytes whatever the time of day, after `delay_ms` per block.
+struct SlowHighlighter {
+    delay_ms: u64,
+}
+impl comrak::adapters::SyntaxHighlighterAdapter for SlowHighlighter {
+    fn write_highlighted(&self, output: &mut dyn std::io::Write, lang: Option<&str>, code: &str) -> std::io::Result<()> {
+        if self.delay_ms > 0 {
+            std::thread::sleep(std::time::Duration::from_millis(self.delay_ms));
+        }
+        write!(output, "<span class=\"hl-{}\">{}</span>", lang.unwrap_or("none").len(), code.len())
+    }
+    fn write_pre_tag(&self, output: &mut dyn std::io::Write, _a: std::collections::HashMap<String, String>) -> std::io::Result<()> {
+        output.write_all(b"<pre class=\"hl\">")
+    }
+    fn write_code_tag(&self, output: &mut dyn std::io::Write, _a: std::collections::HashMap<String, String>) -> std::io::Result<()> {
+        output.write_all(b"<code>")
+    }
+}
+
+fn html_with_plugins(o: &Opts, md: &str, slow_ms: u64) -> Option<Vec<u8>> {
+    use std::panic::{catch_unwind, AssertUnwindSafe};
+    catch_unwind(AssertUnwindSafe(|| {
+        let c = o.to_comrak();
+        let heads = EchoHeadings;
+        let hl = SlowHighlighter { delay_ms: slow_ms };
+        let mut plugins = comrak::Plugins::default();
+        plugins.render.heading_adapter = Some(&heads);
+        plugins.render.codefence_syntax_highlighter = Some(&hl);
+        let arena = comrak::Arena::new();
+        let root = comrak::parse_document(&arena, md, &c);
+        let mut h = Vec::new();
+        comrak::format_html_with_plugins(root, &c, &mut h, &plugins).unwrap();
+        h
+    }))
+    .ok()
+}
+
+/// `plug <input A> || <input B>`: B rendered with a heading adapter and a highlighter on a fresh thread,
+/// after A on another thread (fresh arenas: an address seen before may come back), and with a highlighter
+/// that takes 150 ms per block: all three must agree.
+fn plug_case(rest: &str) -> String {
+    let (a, b) = match rest.split_once(" || ") {
+        Some(x) => x,
+        None => return "ERR bad-plug".into(),
+    };
+    let (pa, pb) = match (Src::parse_input(a), Src::parse_input(b)) {
+        (Some((oa, Src::Doc(a))), Some((ob, Src::Doc(b)))) => ((oa, a), (ob, b)),
+        _ => return "ERR bad-input".into(),
+    };
+    let pb1 = pb.clone();
+    let fresh = std::thread::spawn(move || html_with_plugins(&pb1.0, &pb1.1, 0)).join().ok().flatten();
+    let pb2 = pb.clone();
+    let after = std::thread::spawn(move || {
+        let mut last = None;
+        // the same shape several times: allocators hand a freed address out again
+        for _ in 0..3 {
+            let _ = html_with_plugins(&pa.0, &pa.1, 0);
+            last = html_with_plugins(&pb2.0, &pb2.1, 0);
+        }
+        last
+    })
+    .join()
+    .ok()
+    .flatten();
+    let blocks = pb.1.matches("```").count() / 2;
+    let slow = if blocks >= 8 { html_with_plugins(&pb.0, &pb.1, 150) } else { fresh.clone() };
+    match (fresh, after, slow) {
+        (Some(x), Some(y), Some(z)) => {
+            if x != y {
+                return format!("differs html-after-earlier-document :: {}", diff_window(&x, &y));
+            }
+            if x != z {
+                return format!("differs html-with-slow-highlighter :: {}", diff_window(&x, &z));
+            }
+            "same".into()
+        }
+        _ => "skipped-panic".into(),
     }
 }
 
@@ -671,6 +765,19 @@ pub fn run(cfg: &Cfg, rep: &mut Report) {
             extra.push(format!("cb {} {}", threads, Src::Doc(md.to_string()).input(&Opts::default())));
         }
     }
+    // plugins: a heading adapter that echoes the text it is given, a highlighter that may be slow
+    {
+        let heads = ["# Installation\n", "## Usage\n", "# A *b* `c`\n\ntext\n", "Setext\n===\n", "## Usage\n\n## Usage again\n"];
+        for a in heads {
+            for b in heads {
+                if a != b {
+                    extra.push(format!("plug {} || {}", Src::Doc(a.to_string()).input(&Opts::default()), Src::Doc(b.to_string()).input(&Opts::default())));
+                }
+            }
+        }
+        let many_blocks: String = (0..12).map(|i| format!("# h{}\n\n```rust\nfn f{}() {{}}\n```\n\n", i, i)).collect();
+        extra.push(format!("plug {} || {}", Src::Doc("# x\n".to_string()).input(&Opts::default()), Src::Doc(many_blocks).input(&Opts::default())));
+    }
     let ncb = if cfg.tier_thorough { 150 } else { 30 };
     let with_brackets: Vec<&&String> = docs.iter().filter(|l| l.rsplit(' ').next().map_or(false, |h| h.contains("5b") && h.contains("5d"))).collect();
     for _ in 0..ncb.min(with_brackets.len()) {
@@ -679,8 +786,14 @@ pub fn run(cfg: &Cfg, rep: &mut Report) {
     let outs = crate::worker::run_cases("C05", &extra, std::time::Duration::from_secs(60), 6);
     for (l, got) in extra.iter().zip(outs.iter()) {
         rep.s_evals += 1;
-        let (kind, what) = if l.starts_with("arena ") { ("depends-on-earlier-document", "shared-arena") } else { ("thread-race-differs", "broken-link-callback") };
-        rep.count(if l.starts_with("arena ") { "shared-arena-comparisons" } else { "racing-callback-comparisons" });
+        let (kind, what) = if l.starts_with("arena ") {
+            ("depends-on-earlier-document", "shared-arena")
+        } else if l.starts_with("plug ") {
+            ("depends-on-earlier-document", "plugins")
+        } else {
+            ("thread-race-differs", "broken-link-callback")
+        };
+        rep.count(if l.starts_with("arena ") { "shared-arena-comparisons" } else if l.starts_with("plug ") { "plugin-comparisons" } else { "racing-callback-comparisons" });
         match got {
             crate::worker::Outcome::Reply(r, _) if r == "same" || r == "skipped-panic" => {}
             crate::worker::Outcome::Reply(r, _) => rep.fail(kind, what, l.clone(), r.clone()),
@@ -736,7 +849,7 @@ pub fn replay(kind: &str, input: &str) -> Result<Option<String>, String> {
         }
         return Ok(None);
     }
-    if input.starts_with("seq ") || input.starts_with("arena ") || input.starts_with("cb ") {
+    if input.starts_with("seq ") || input.starts_with("arena ") || input.starts_with("cb ") || input.starts_with("plug ") {
         let outs = crate::worker::run_cases("C05", &[input.to_string()], std::time::Duration::from_secs(60), 1);
         return Ok(match &outs[0] {
             crate::worker::Outcome::Reply(l, _) if l == "same" || l == "skipped-panic" => None,
